@@ -231,6 +231,12 @@ def check(case):
                                    exp[a:b][:, [nc - 1, 0]], key='traces-cols')
                     out = must_return('traces[a:b]', lambda: m.traces[a:b])
                     same_array('traces[%d:%d]' % (a, b), out, exp[a:b], key='traces')
+            # manual clustering edits the in-memory cluster vector in place; every other array
+            # still equals its file
+            if ns >= 2:
+                m.spike_clusters[0] = int(m.spike_clusters[0]) + 1
+                same_array('spike_templates (after an in-place edit of spike_clusters)',
+                           m.spike_templates, T.spike_templates, key='spike_templates')
         finally:
             must_return('close', m.close)
             tr = getattr(m, 'traces', None)
